@@ -158,6 +158,10 @@ def gen(rng, tier):
     for _ in range(nr):
         yield {"kind": "path", "fs": rng.choice(fss + [rand_str(rng, 0, 5, "ab/")]), "s": rand_str(rng, 5, 14),
                "child": rand_str(rng, 0, 8)}
+    # the root and one-component paths as receivers of getChild with every short argument (also multi-component ones)
+    for recv in ("", "/", "a", "a/", "/a/b"):
+        for c in all_strings(min(n1, 4)):
+            yield {"kind": "path", "fs": "/r", "s": recv, "child": c}
     short = list(all_strings(n2))
     for a in short:
         for b in short:
